@@ -51,9 +51,7 @@ theorem andx_consumed :
 theorem known_roundtrip_findings :
     commands.filterMap (fun c => (knownRtKind c).map (fun k => (k, c.name))) =
       [(.fixedEntrySize, "FindResponse"), (.fixedEntrySize, "FindUniqueResponse"),
-       (.fieldNotMarshalled, "NegotiateRequest"), (.fieldNotMarshalled, "NegotiateResponse"),
-       (.conditionalField, "ReadRawRequest"), (.conditionalField, "WriteAndCloseRequest"),
-       (.conditionalField, "WriteAndxRequest"), (.conditionalField, "WriteRawRequest")] := by decide +kernel
+       (.fieldNotMarshalled, "NegotiateRequest"), (.fieldNotMarshalled, "NegotiateResponse")] := by decide +kernel
 
 /-- **every buffer is sized by the field documented to size it**: the (command, buffer, length) and
     (command, list, count) relations the regenerated unmarshal programs rely on are exactly the pinned
@@ -208,8 +206,8 @@ theorem smb_reencode (c : Cmd) (hmem : c ∈ commands) (hm : Mirror c = true) (e
 theorem loop_mirror_commands :
     (commands.filter (fun c => MirrorLoops c && !Mirror c)).map (·.name) =
       ["LockingAndxRequest", "OpenAndxRequest", "OpenAndxResponse", "QueryInformationResponse",
-       "SessionSetupAndxRequest", "SessionSetupAndxResponse", "TransactionRequest", "WriteAndxRequest",
-       "WriteMpxRequest", "WriteRawRequest"] := by decide +kernel
+       "ReadRawRequest", "SessionSetupAndxRequest", "SessionSetupAndxResponse",
+       "TransactionRequest", "WriteAndxRequest", "WriteMpxRequest", "WriteRawRequest"] := by decide +kernel
 
 /-- `MirrorLoops` extends `Mirror`: each of the 90 `Mirror` commands satisfies it -/
 theorem mirror_loops_extends : commands.all (fun c => !Mirror c || MirrorLoops c) = true := by decide +kernel
@@ -225,7 +223,7 @@ theorem mirror_loops_extends : commands.all (fun c => !Mirror c || MirrorLoops c
 theorem non_mirror_loops_commands :
     (commands.filter (fun c => !MirrorLoops c)).map (·.name) =
       ["FindCloseResponse", "FindResponse", "FindUniqueResponse", "LockAndReadResponse",
-       "NegotiateRequest", "NegotiateResponse", "ReadRawRequest", "ReadResponse", "RenameRequest",
+       "NegotiateRequest", "NegotiateResponse", "ReadResponse", "RenameRequest",
        "WriteAndCloseRequest", "WriteAndUnlockRequest", "WriteRequest"] := by decide +kernel
 
 /-- **C04, generic round trip over the loop fragment.**  As `mirror_roundtrip`, for every command whose
@@ -452,18 +450,34 @@ example : consistent Manticore.SmbCodecs.std cmd_WriteAndxRequest (writeAndxEnv 
   simp [intsFit, relationsHold, cmd_WriteAndxRequest, writeAndxEnv, prologueEnv, Env.get, Env.set, wordCountOf, andxWords,
     andxField, defaultAndX, evalEnv]
   exact hax
-example : receiverFits cmd_WriteAndxRequest [("OffsetHigh", .n 0)] (writeAndxEnv 0) = true ∧
-    receiverFits cmd_WriteAndxRequest [("OffsetHigh", .n 5)] (writeAndxEnv 7) = true ∧
-    receiverFits cmd_WriteAndxRequest [("OffsetHigh", .n 5)] (writeAndxEnv 0) = false := by decide +kernel
-/-- `receiverFits` is needed (C04 finding kind `conditional-field`): the 12-word form decoded into a structure that
-    still holds `OffsetHigh = 5` leaves the 5 there -/
-theorem optional_stale_counterexample :
+/-- an optional integer asks nothing of the receiver: whatever `OffsetHigh` held, `receiverFits` holds -/
+example : receiverFits cmd_WriteAndxRequest [("OffsetHigh", .n 5)] (writeAndxEnv 0) = true ∧
+    receiverFits cmd_WriteAndxRequest [] (writeAndxEnv 7) = true := by decide +kernel
+/-- **the optional field is reset** (the repaired C04 finding kind `conditional-field`, fixes/C04-optional-offsethigh-reset.diff):
+    the 12-word form of WRITE_ANDX decoded into a structure that still holds `OffsetHigh = 5` from an earlier message
+    leaves 0 there, as it does in a fresh structure — `Unmarshal` sets the field to zero before the word-count test.
+    (Before the repair the 5 survived, and `mirror_loops_roundtrip` had to ask the receiver to hold zero.) -/
+theorem optional_stale_reset :
     (match encodeCmd Manticore.SmbCodecs.std cmd_WriteAndxRequest (writeAndxEnv 0) with
     | .ok bs => (match decodeCmd Manticore.SmbCodecs.std cmd_WriteAndxRequest [("OffsetHigh", .n 0)] bs,
                        decodeCmd Manticore.SmbCodecs.std cmd_WriteAndxRequest [("OffsetHigh", .n 5)] bs with
-        | .ok d, .ok d5 => d.get "OffsetHigh" == some (.n 0) && d5.get "OffsetHigh" == some (.n 5)
+        | .ok d, .ok d5 => d.get "OffsetHigh" == some (.n 0) && d5.get "OffsetHigh" == some (.n 0)
         | _, _ => false)
     | _ => false) = true := by decide +kernel
+/-- READ_RAW, both forms, into a receiver holding a stale `OffsetHigh`: 8 words → 0, 10 words → the value sent -/
+def readRawEnv (hi : Nat) : Env :=
+  [("FID", .n 0x1234), ("Offset", .n 1), ("MaxCountOfBytesToReturn", .n 2), ("MinCountOfBytesToReturn", .n 3),
+   ("Timeout", .n 4), ("Reserved", .n 0), ("OffsetHigh", .n hi)]
+example : MirrorLoops cmd_ReadRawRequest = true := by decide +kernel
+example : encodeCmd Manticore.SmbCodecs.std cmd_ReadRawRequest (readRawEnv 5) =
+    .ok [0x0a, 0x34, 0x12, 1, 0, 0, 0, 2, 0, 3, 0, 4, 0, 0, 0, 0, 0, 5, 0, 0, 0, 0, 0] := by decide +kernel
+example : (match encodeCmd Manticore.SmbCodecs.std cmd_ReadRawRequest (readRawEnv 0),
+                 encodeCmd Manticore.SmbCodecs.std cmd_ReadRawRequest (readRawEnv 5) with
+    | .ok b0, .ok b5 => (match decodeCmd Manticore.SmbCodecs.std cmd_ReadRawRequest [("OffsetHigh", .n 9)] b0,
+                               decodeCmd Manticore.SmbCodecs.std cmd_ReadRawRequest [("OffsetHigh", .n 9)] b5 with
+        | .ok d0, .ok d5 => b0.length == 19 && d0.get "OffsetHigh" == some (.n 0) && d5.get "OffsetHigh" == some (.n 5)
+        | _, _ => false)
+    | _, _ => false) = true := by decide +kernel
 
 /-- SESSION_SETUP_ANDX response: one parameter word, so `(len(P)+3)%2 == 1` and the decoder expects one pad byte -/
 def sessionRespEnv : Env :=
